@@ -233,20 +233,26 @@ func getModel(file, solver string, timeout time.Duration, seed int) string {
 
 func solveAll(obls []*Obligation, dir string, timeout time.Duration, seed, jobs int) {
 	os.MkdirAll(dir, 0o755)
-	// query texts are generated sequentially (generation touches shared VC state)
-	for _, o := range obls {
-		o.Text = o.smt(int(timeout.Milliseconds()))
-	}
+	// query texts are generated sequentially (generation touches shared VC state),
+	// each just before it is handed to a worker, so that only a few are in memory
 	var wg sync.WaitGroup
 	sem := make(chan struct{}, jobs)
-	for _, o := range obls {
+	keepAll := os.Getenv("GOVC_KEEP_SMT") != ""
+	for i, o := range obls {
 		o := o
+		i := i
 		wg.Add(1)
 		sem <- struct{}{}
+		o.Text = o.smt(int(timeout.Milliseconds()))
 		go func() {
 			defer wg.Done()
 			defer func() { <-sem }()
 			o.Result = solveOne(o, dir, timeout, seed)
+			// disk: a discharged query is regenerated on every run; the first ones are
+			// kept as samples for the evidence file, slow ones for inspection
+			if !keepAll && i >= 200 && o.Result != nil && o.Result.Status == "discharged" && o.Result.Seconds <= 2 {
+				os.Remove(o.Result.File)
+			}
 		}()
 	}
 	wg.Wait()
